@@ -524,6 +524,7 @@ func runSigCase(t fataler, e *sigEnv, cs []cand) {
 		}
 	}
 	stats.Count("sig_candidates", int64(len(cs)))
+	stats.Evals(int64(len(cs)))
 }
 
 // TestSigBytes: the verifier pipeline accepts exactly the canonical encoding of Sign(sk, msg).
@@ -678,6 +679,7 @@ func runPkCase(t fataler, e *sigEnv, cs []cand) {
 		t.Fatalf("VerifySig with the empty public key returned %v (panic %v)", ok, pn)
 	}
 	stats.Count("pk_candidates", int64(len(cs)))
+	stats.Evals(int64(len(cs)))
 }
 
 func safeBool(f func() bool) (ok bool, panicked interface{}) {
